@@ -64,6 +64,7 @@ type Built struct {
 	Orig      *ast.File
 	OrigDecls []ast.Decl // without import declarations
 	Want      []Imp
+	Items     []jen.Code // the top-level items added to the File, in order
 	Skip      string // non-empty: the input is outside the translator's domain
 	Panic     string // panic inside jennifer while building
 }
@@ -209,6 +210,7 @@ func Build(filename string, src []byte, roots []string, seed int64, k Knobs) (b 
 	fileItems = t.damage("File", fileItems)
 	for _, it := range t.inj(t.cmt(fileItems)) {
 		f.Add(it)
+		b.Items = append(b.Items, it)
 	}
 	return b
 }
